@@ -363,14 +363,11 @@ def r5_wrapped(prog, rep: Report, pf: PoolFacts):
         vflow = Flow(f.node)
         ok = False
         why = "no `with self.<ReplaceThread>(...)` around the delegation"
-        for n in walk_own(f.node):
-            ctx_e = n.items[0].context_expr if isinstance(n, ast.With) else None
-            if isinstance(ctx_e, ast.Name):
-                ctx_e = vflow.expand(ctx_e)                # replacer = self.ReplaceWorkerThread(...); with replacer:
-            if isinstance(n, ast.With) and isinstance(ctx_e, ast.Call):
-                c = ctx_e
+        from .poolfam import helper_thread_scopes
+        for c, scope_body, n in helper_thread_scopes(f, vflow):       # with <thread>(...): ...   /   start(); try: ... finally: stop()
+            if True:
                 if isinstance(c.func, ast.Attribute) and c.func.attr == pf.replacer.name and c.args and src(c.args[0]) == f.self_name:
-                    yf = [y for s in n.body for y in ast.walk(s) if isinstance(y, ast.YieldFrom)]
+                    yf = [y for s in scope_body for y in ast.walk(s) if isinstance(y, ast.YieldFrom)]
                     if len(yf) == 1 and isinstance(yf[0].value, ast.Name):
                         # results = super().imap(data, chunk_size) (a generator object: nothing runs before it is iterated);
                         # with replacer: yield from results
